@@ -15,7 +15,10 @@ from vt.common import HarnessError
 LEVEL = 'other'
 EXPLANATION = (
     'Regular-language inclusion decided by z3 (sequence/regex theory), strings of ANY length over all of Unicode: the '
-    'set of strings accepted by the real validate_next_page_url (translated from its AST; urllib.parse.urlsplit '
+    'set of strings accepted by the real validate_next_page_url (translated from its AST: if/raise tests over the parameter, '
+    '.netloc/.hostname/.scheme/.path/.port of urlsplit/urlparse, intermediate variables, and the regular transductions '
+    'lower/upper/casefold, partition/rpartition/split/rsplit with constant index, strip, removeprefix/suffix, constant slices — '
+    'each as an exact pre-image; urllib.parse.urlsplit '
     'modelled as a regular language incl. C0/space lstrip, TAB/CR/LF removal, scheme rule, // rule, /?# delimiters) '
     'is included in the set of strings for which a WHATWG-conformant browser, resolving against the auth service URL, '
     'lands on one of the hosts the real deploy_config.external_url yields for batch/auth/ci/monitoring. Two concrete '
